@@ -38,11 +38,7 @@ Theorem diff_apply_fresh_any_codec :
       decode (encode (write_patch differ algo quality old new)) = Some fs /\
       apply_patch_fresh bs (contents_of old) None fs = Ok (t, touched, trace) /\
       forall p, tlookup t p = tlookup new p.
-Proof.
-  intros B encode decode RT bs differ old new algo quality Hbs WF FO FN DOK.
-  destruct (diff_apply_fresh_lemma bs differ old new algo quality Hbs WF FO FN DOK) as (t & touched & trace & H & _ & Ht).
-  exists (write_patch differ algo quality old new), t, touched, trace. split; [apply RT|]. split; assumption.
-Qed.
+Proof. exact diff_apply_fresh_any_codec_lemma. Qed.
 Print Assumptions diff_apply_fresh_any_codec.
 
 (** ApplySingleFull's arithmetic (opSize from the old file's size, the lastSize rule) copies,
@@ -86,9 +82,7 @@ Print Assumptions prepare_lays_out_container.
     is [diff_ok]), and a concrete run with a renamed file (full-file op => Transpose), a file
     made of an old block plus fresh bytes, an empty file, a directory and a symlink *)
 Example diff_ok_inhabited : forall bs olds, diff_ok bs olds (fun _ data => [OpData data]).
-Proof.
-  intros bs olds pref data. split; [discriminate|]. split; [cbn; apply app_nil_r|]. repeat constructor.
-Qed.
+Proof. exact diff_ok_data_only. Qed.
 
 Example diff_apply_fresh_example :
   let old : build := [([1], File [1;2;3;4;5;6]); ([2], File [9])]%N in
